@@ -458,6 +458,45 @@ pub(crate) async fn run_actor_lifecycle<T: Actor>(
     mut receiver: mpsc::Receiver<MailboxMessage<T>>,
     mut terminate_receiver: mpsc::Receiver<ControlSignal>,
 ) -> ActorResult<T> {
+    use futures::FutureExt;
+    let outcome = std::panic::AssertUnwindSafe(run_actor_lifecycle_inner(
+        args,
+        actor_ref,
+        &mut receiver,
+        &mut terminate_receiver,
+    ))
+    .catch_unwind()
+    .await;
+
+    // Close both channels on every exit path (including a panic) and make sure that nothing
+    // can be stranded in the mailbox afterwards. A sender that already holds a send permit
+    // can still push its envelope after the receiver has been closed and dropped. That
+    // envelope holds an `ActorRef` (a `Sender` of this very channel), so it would never be
+    // released and the `ask` waiting on its reply channel would hang forever.
+    // `recv` on a closed channel returns `None` once no permit is outstanding. If that is
+    // not yet the case, the receiver is handed to a small drain task that drops any late
+    // envelope (failing its `ask`) and ends when the last permit or sender is gone.
+    terminate_receiver.close();
+    receiver.close();
+    let drained = {
+        let mut drain = std::pin::pin!(async { while receiver.recv().await.is_some() {} });
+        futures::poll!(drain.as_mut()).is_ready()
+    };
+    if !drained {
+        tokio::spawn(async move { while receiver.recv().await.is_some() {} });
+    }
+    match outcome {
+        Ok(result) => result,
+        Err(payload) => std::panic::resume_unwind(payload),
+    }
+}
+
+async fn run_actor_lifecycle_inner<T: Actor>(
+    args: T::Args,
+    actor_ref: ActorRef<T>,
+    receiver: &mut mpsc::Receiver<MailboxMessage<T>>,
+    terminate_receiver: &mut mpsc::Receiver<ControlSignal>,
+) -> ActorResult<T> {
     let actor_id = actor_ref.identity();
 
     #[cfg(feature = "tracing")]
